@@ -337,8 +337,9 @@ func (g *gen) content() []byte {
 	case 3:
 		size = g.r.Range(64, g.maxSize)
 	case 4:
-		size = rt.Pick(g.r, []int{4095, 4096, 4097, 32767, 32768, 32769})
-		if size > g.maxSize*8 {
+		// buffer edges: a page, io.Copy's 32 KiB buffer, two and three of them
+		size = rt.Pick(g.r, []int{4095, 4096, 4097, 32767, 32768, 32769, 32767, 32768, 32769, 65535, 65536, 65537, 98305})
+		if size > g.maxSize*24 {
 			size = g.maxSize
 		}
 	}
